@@ -80,6 +80,98 @@ theorem copied_init (a b : Store Ω μ) (parent : Option Nat) (hf : FreeInv a) :
   ⟨rfl, by intro i j x h; simp at h, by intro i x h; simp at h,
    fun j d h => ⟨d, h, NodeSame.refl d, rfl, rfl⟩, fun j d h => Or.inl ⟨d, h⟩, rfl, rfl, hf⟩
 
+/-- one iteration of the node-copy loop -/
+theorem copied_step (a b s s1 : Store Ω μ) (parent : Option Nat) (done : List Nat) (mp : Dict Nat Nat)
+    (hc : Copied a s b parent done mp) (i : Nat) (hi_done : i ∉ done) (db : NodeData Ω μ)
+    (hd : getNode b i = .ok db) (np : Option Nat) (hp : resolveParent mp parent db.parent = .ok np) (x : Nat)
+    (ha : addNode s db.op np (some db.numOuts) db.md = .ok (s1, x)) :
+    Copied a s1 b parent (done ++ [i]) (Dict.set i x mp) := by
+  obtain ⟨fresh, ⟨dx, ex, eop, epar, emd, _, eouts⟩, keep, back, elinks, eroot, hf1⟩ :=
+    addNodeRaw_spec s s1 hc.free db.op _ (some db.numOuts) db.md x ha
+  have hi_new : i ∉ Dict.keys mp := by rw [hc.keys]; exact hi_done
+  have hget_i : Dict.get i mp = none := (Dict.get_none_iff i mp).mpr hi_new
+  -- x is not an image yet and not a node of A
+  have hx_not_image : ∀ j, Dict.get j mp ≠ some x := by
+    intro j hj
+    obtain ⟨_, _, ds, _, es, _⟩ := hc.image j x hj
+    exact fresh ds es
+  have hx_not_a : ∀ d, getNode a x ≠ .ok d := by
+    intro d hd'
+    obtain ⟨d', e', _⟩ := hc.frame x d hd'
+    exact fresh d' e'
+  -- parent recorded for the new node
+  have hnp : np = (match db.parent with | some p => Dict.get p mp | none => parent) := by
+    unfold resolveParent at hp
+    cases hpp : db.parent with
+    | none => simp [hpp] at hp; simp [hp]
+    | some p =>
+      simp only [hpp] at hp
+      cases hg : Dict.get p mp with
+      | none => simp [hg] at hp
+      | some p' => simp [hg] at hp; simp [hg, hp]
+  have step : Copied a s1 b parent (done ++ [i]) (Dict.set i x mp) := by
+    refine ⟨?_, ?_, ?_, ?_, ?_, ?_, ?_, hf1⟩
+    · rw [Dict.keys_set, if_neg hi_new, hc.keys]
+    · intro j k y hj hk
+      rw [Dict.get_set] at hj hk
+      by_cases hji : j = i <;> by_cases hki : k = i
+      · rw [hji, hki]
+      · simp [hji] at hj; simp [hki] at hk; subst hj; exact absurd hk (hx_not_image k)
+      · simp [hji] at hj; simp [hki] at hk; subst hk; exact absurd hj (hx_not_image j)
+      · simp [hji] at hj; simp [hki] at hk; exact hc.inj j k y hj hk
+    · intro j y hj
+      rw [Dict.get_set] at hj
+      by_cases hji : j = i
+      · simp [hji] at hj; subst hj; subst hji
+        refine ⟨hx_not_a, db, dx, hd, ex, eop, emd, by simpa using eouts, ?_, ?_⟩
+        · intro p hpp
+          rw [hpp] at hnp
+          cases hg : Dict.get p mp with
+          | none =>
+            exfalso
+            unfold resolveParent at hp
+            simp [hpp, hg] at hp
+          | some p' =>
+            refine ⟨p', ?_, ?_⟩
+            · rw [Dict.get_set]
+              have : p ≠ j := by intro e; subst e; rw [hget_i] at hg; cases hg
+              simp [this, hg]
+            · rw [epar, hnp]; simp [hg]
+        · intro hpp
+          rw [hpp] at hnp
+          rw [epar, hnp, hc.root]
+      · simp [hji] at hj
+        obtain ⟨h1, db', ds, e1, e2, e3, e4, e5, e6, e7⟩ := hc.image j y hj
+        have hyx : y ≠ x := by intro e; subst e; exact hx_not_image j hj
+        obtain ⟨ds', es', sm, n1, n2⟩ := keep y ds hyx e2
+        refine ⟨h1, db', ds', e1, es', by rw [sm.op, e3], by rw [sm.md, e4], by rw [n2, e5], ?_, ?_⟩
+        · intro p hpp
+          obtain ⟨p', g1, g2⟩ := e6 p hpp
+          refine ⟨p', ?_, by rw [sm.parent, g2]⟩
+          rw [Dict.get_set]
+          have : p ≠ i := by intro e; subst e; rw [hget_i] at g1; cases g1
+          simp [this, g1]
+        · intro hpp; rw [sm.parent]; exact e7 hpp
+    · intro j d hd'
+      obtain ⟨d1, e1, sm1, n1, o1⟩ := hc.frame j d hd'
+      have hjx : j ≠ x := by intro e; subst e; exact fresh d1 e1
+      obtain ⟨d2, e2, sm2, n2, o2⟩ := keep j d1 hjx e1
+      exact ⟨d2, e2, sm1.trans sm2, n2.trans n1, o2.trans o1⟩
+    · intro j d' hd'
+      by_cases hjx : j = x
+      · right; exact ⟨i, by rw [Dict.get_set]; simp [hjx]⟩
+      · obtain ⟨d, hd0⟩ := back j d' hjx hd'
+        rcases hc.only j d hd0 with h1 | ⟨k, hk⟩
+        · exact Or.inl h1
+        · right
+          refine ⟨k, ?_⟩
+          rw [Dict.get_set]
+          have : k ≠ i := by intro e; subst e; rw [hget_i] at hk; cases hk
+          simp [this, hk]
+    · rw [elinks, hc.links]
+    · rw [eroot, hc.root]
+  exact step
+
 theorem insertNodes_spec (a b : Store Ω μ) (parent : Option Nat) : ∀ (is : List Nat) (s s' : Store Ω μ)
     (done : List Nat) (mp mp' : Dict Nat Nat), Copied a s b parent done mp → Dict.NodupKeys mp →
     (∀ i ∈ is, i ∉ done) → is.Nodup →
@@ -108,91 +200,7 @@ theorem insertNodes_spec (a b : Store Ω μ) (parent : Option Nat) : ∀ (is : L
         | ok r =>
           simp only [ha] at h
           obtain ⟨s1, x⟩ := r
-          obtain ⟨fresh, ⟨dx, ex, eop, epar, emd, _, eouts⟩, keep, back, elinks, eroot, hf1⟩ :=
-            addNodeRaw_spec s s1 hc.free db.op _ (some db.numOuts) db.md x ha
-          have hi_done : i ∉ done := hnew i (by simp)
-          have hi_new : i ∉ Dict.keys mp := by rw [hc.keys]; exact hi_done
-          have hget_i : Dict.get i mp = none := (Dict.get_none_iff i mp).mpr hi_new
-          -- x is not an image yet and not a node of A
-          have hx_not_image : ∀ j, Dict.get j mp ≠ some x := by
-            intro j hj
-            obtain ⟨_, _, ds, _, es, _⟩ := hc.image j x hj
-            exact fresh ds es
-          have hx_not_a : ∀ d, getNode a x ≠ .ok d := by
-            intro d hd'
-            obtain ⟨d', e', _⟩ := hc.frame x d hd'
-            exact fresh d' e'
-          -- parent recorded for the new node
-          have hnp : np = (match db.parent with | some p => Dict.get p mp | none => parent) := by
-            unfold resolveParent at hp
-            cases hpp : db.parent with
-            | none => simp [hpp] at hp; simp [hp]
-            | some p =>
-              simp only [hpp] at hp
-              cases hg : Dict.get p mp with
-              | none => simp [hg] at hp
-              | some p' => simp [hg] at hp; simp [hg, hp]
-          have step : Copied a s1 b parent (done ++ [i]) (Dict.set i x mp) := by
-            refine ⟨?_, ?_, ?_, ?_, ?_, ?_, ?_, hf1⟩
-            · rw [Dict.keys_set, if_neg hi_new, hc.keys]
-            · intro j k y hj hk
-              rw [Dict.get_set] at hj hk
-              by_cases hji : j = i <;> by_cases hki : k = i
-              · rw [hji, hki]
-              · simp [hji] at hj; simp [hki] at hk; subst hj; exact absurd hk (hx_not_image k)
-              · simp [hji] at hj; simp [hki] at hk; subst hk; exact absurd hj (hx_not_image j)
-              · simp [hji] at hj; simp [hki] at hk; exact hc.inj j k y hj hk
-            · intro j y hj
-              rw [Dict.get_set] at hj
-              by_cases hji : j = i
-              · simp [hji] at hj; subst hj; subst hji
-                refine ⟨hx_not_a, db, dx, hd, ex, eop, emd, by simpa using eouts, ?_, ?_⟩
-                · intro p hpp
-                  rw [hpp] at hnp
-                  cases hg : Dict.get p mp with
-                  | none =>
-                    exfalso
-                    unfold resolveParent at hp
-                    simp [hpp, hg] at hp
-                  | some p' =>
-                    refine ⟨p', ?_, ?_⟩
-                    · rw [Dict.get_set]
-                      have : p ≠ j := by intro e; subst e; rw [hget_i] at hg; cases hg
-                      simp [this, hg]
-                    · rw [epar, hnp]; simp [hg]
-                · intro hpp
-                  rw [hpp] at hnp
-                  rw [epar, hnp, hc.root]
-              · simp [hji] at hj
-                obtain ⟨h1, db', ds, e1, e2, e3, e4, e5, e6, e7⟩ := hc.image j y hj
-                have hyx : y ≠ x := by intro e; subst e; exact hx_not_image j hj
-                obtain ⟨ds', es', sm, n1, n2⟩ := keep y ds hyx e2
-                refine ⟨h1, db', ds', e1, es', by rw [sm.op, e3], by rw [sm.md, e4], by rw [n2, e5], ?_, ?_⟩
-                · intro p hpp
-                  obtain ⟨p', g1, g2⟩ := e6 p hpp
-                  refine ⟨p', ?_, by rw [sm.parent, g2]⟩
-                  rw [Dict.get_set]
-                  have : p ≠ i := by intro e; subst e; rw [hget_i] at g1; cases g1
-                  simp [this, g1]
-                · intro hpp; rw [sm.parent]; exact e7 hpp
-            · intro j d hd'
-              obtain ⟨d1, e1, sm1, n1, o1⟩ := hc.frame j d hd'
-              have hjx : j ≠ x := by intro e; subst e; exact fresh d1 e1
-              obtain ⟨d2, e2, sm2, n2, o2⟩ := keep j d1 hjx e1
-              exact ⟨d2, e2, sm1.trans sm2, n2.trans n1, o2.trans o1⟩
-            · intro j d' hd'
-              by_cases hjx : j = x
-              · right; exact ⟨i, by rw [Dict.get_set]; simp [hjx]⟩
-              · obtain ⟨d, hd0⟩ := back j d' hjx hd'
-                rcases hc.only j d hd0 with h1 | ⟨k, hk⟩
-                · exact Or.inl h1
-                · right
-                  refine ⟨k, ?_⟩
-                  rw [Dict.get_set]
-                  have : k ≠ i := by intro e; subst e; rw [hget_i] at hk; cases hk
-                  simp [this, hk]
-            · rw [elinks, hc.links]
-            · rw [eroot, hc.root]
+          have step := copied_step a b s s1 parent done mp hc i (hnew i (by simp)) db hd np hp x ha
           have hnd1 : Dict.NodupKeys (Dict.set i x mp) := Dict.nodup_set i x mp hnd
           have := ih s1 s' (done ++ [i]) (Dict.set i x mp) mp' step hnd1
             (by
